@@ -56,7 +56,15 @@ def observe(spec, inp):
             nr = spec["rows"]
             vs = _vars(n_, spec, inp)
             ent = [[inp["m%d_%d" % (i, j)] for j in range(n + 1)] for i in range(nr)]
-            P = pnd.ge_polyhedron(numpy.array(ent, dtype=numpy.int64), variables=[puan.variable(0, bounds=(1, 1))] + vs)
+            if spec.get("edit"):
+                ent0 = [[inp.get("n%d_%d" % (i, j), 0) for j in range(n + 1)] for i in range(nr)]
+                P = pnd.ge_polyhedron(numpy.array(ent0, dtype=numpy.int64), variables=[puan.variable(0, bounds=(1, 1))] + vs)
+                P.A, P.b, P.to_linalg(), P.A_max, P.A_min
+                for i in range(nr):
+                    for j in range(n + 1):
+                        P[i, j] = ent[i][j]
+            else:
+                P = pnd.ge_polyhedron(numpy.array(ent, dtype=numpy.int64), variables=[puan.variable(0, bounds=(1, 1))] + vs)
             A2, b2 = P.to_linalg()
             out["ent"] = ent
             out["A"], out["b"] = P.A.tolist(), P.b.tolist()
